@@ -31,6 +31,13 @@ package route
 //@   modifies allof("chan:[]uint8#sent"), allof("ghost:metrics.Counter.count")
 //@   ensures[table_counters] forall c ref :: gh("metrics.Counter.tableOwned", c) ==> gh("metrics.Counter.count", c) == old(gh("metrics.Counter.count", c))
 
+//@ iface (r Route) Key() string
+//@   pure
+//@   ensures result == routeKey(r)
+//@ iface (r Route) Shutdown() error
+//@   modifies allof("chan:bool#sent")
+//@ spec routeKey(r Route) := routeBase(r).key
+
 // ---------------------------------------------------------------- route.go
 //@ func (route *baseRoute) Match(s []byte) bool
 //@   property C01,C03
